@@ -38,6 +38,11 @@ pub enum MKind {
     /// `Ring::pollable(sq)` of a second ring: a multishot poll whose results
     /// all look the same (the poll mask), unlike accepted connections.
     Pollable,
+    /// `Signals::receive_signals()`: an owned iterator over single reads of a
+    /// (real) signalfd; one operation state is reset and reused for every
+    /// item. `into_inner`: it is taken apart with `into_inner()` instead of
+    /// being dropped.
+    Signals { into_inner: bool },
 }
 
 impl MKind {
@@ -89,6 +94,7 @@ pub fn strategy() -> impl Strategy<Value = MultiCase> {
     let kind = prop_oneof![
         4 => Just(MKind::Accept),
         2 => Just(MKind::Pollable),
+        2 => any::<bool>().prop_map(|into_inner| MKind::Signals { into_inner }),
         3 => (1u16..600).prop_map(|len| MKind::SendZc { len }),
         2 => (0u16..300, 1u16..300).prop_map(|(a, b)| MKind::SendVecZc { a, b }),
         1 => (1u16..300).prop_map(|len| MKind::Write { len }),
@@ -145,6 +151,7 @@ pub fn strategy() -> impl Strategy<Value = MultiCase> {
 enum Fut {
     Accept(Pin<Box<a10::net::MultishotAccept<'static>>>),
     Pollable(Pin<Box<a10::poll::Pollable>>),
+    Signals(Pin<Box<a10::process::ReceiveSignals>>),
     Count(Pin<Box<dyn Future<Output = std::io::Result<usize>>>>),
 }
 
@@ -189,6 +196,10 @@ struct Op {
     /// A fault was consumed and everything before it yielded: the next poll
     /// must re-issue the operation.
     restarts: usize,
+    /// Signals: the sender pid scripted for the read in flight, and the
+    /// descriptor number of the signalfd.
+    sig_pid: u32,
+    sig_fd: i32,
 }
 
 struct Exec<'c> {
@@ -355,6 +366,14 @@ impl<'c> Exec<'c> {
                 let _s = track::scope(track::TAG_A10);
                 Fut::Pollable(Box::pin(other.pollable(sq)))
             }
+            MKind::Signals { .. } => {
+                let sq = self.world.sq();
+                let _s = track::scope(track::TAG_A10);
+                let signals = a10::process::Signals::from_signals(sq, [a10::process::Signal::USER2]).expect("signalfd");
+                let text = format!("{signals:?}");
+                self.ops[i].sig_fd = text.split("fd: AsyncFd { fd: ").nth(1).and_then(|r| r.split(',').next()).and_then(|n| n.trim().parse::<i32>().ok()).unwrap_or(-1);
+                Fut::Signals(Box::pin(signals.receive_signals()))
+            }
             MKind::SendZc { len } => {
                 let v = mk(len as usize, i);
                 note(&v);
@@ -465,6 +484,8 @@ impl<'c> Exec<'c> {
             End,
             Fd(a10::AsyncFd),
             Unit,
+            /// A received signal: the sender's pid.
+            Sig(u32),
             Count(usize),
             Err(Option<i32>, String),
         }
@@ -482,6 +503,12 @@ impl<'c> Exec<'c> {
                     Poll::Pending => Got::Pending,
                     Poll::Ready(None) => Got::End,
                     Poll::Ready(Some(Ok(()))) => Got::Unit,
+                    Poll::Ready(Some(Err(e))) => Got::Err(e.raw_os_error(), e.to_string()),
+                },
+                Fut::Signals(f) => match f.as_mut().poll_next(&mut cx) {
+                    Poll::Pending => Got::Pending,
+                    Poll::Ready(None) => Got::End,
+                    Poll::Ready(Some(Ok(info))) => Got::Sig(info.pid()),
                     Poll::Ready(Some(Err(e))) => Got::Err(e.raw_os_error(), e.to_string()),
                 },
                 Fut::Count(f) => match f.as_mut().poll(&mut cx) {
@@ -536,6 +563,7 @@ impl<'c> Exec<'c> {
                 MKind::SendVecZc { .. } => abi::OP_SENDMSG_ZC,
                 MKind::Write { .. } => abi::OP_WRITE,
                 MKind::Pollable => abi::OP_POLL_ADD,
+                MKind::Signals { .. } => abi::OP_READ,
             };
             let bad_poll = self.ops[i].kind == MKind::Pollable && (sqe.len & abi::POLL_ADD_MULTI == 0 || Some(sqe.fd) != self.other.as_ref().map(|o| o.1));
             if sqe.opcode != want_op || bad_poll || (self.ops[i].kind == MKind::Accept && sqe.ioprio & abi::ACCEPT_MULTISHOT == 0) {
@@ -684,10 +712,29 @@ impl<'c> Exec<'c> {
                         self.fail("C02", "lost-result", format!("{name} returned Pending although its final completion was consumed"));
                     }
                 }
-                Got::Count(_) | Got::Err(..) if !self.ops[i].final_consumed => {
+                Got::Count(_) | Got::Err(..) | Got::Sig(_) if !self.ops[i].final_consumed => {
                     let detail = if zc && self.ops[i].zc_first_consumed { "only the first of its two completions was consumed (the notification is outstanding)" } else { "its completion was not consumed" };
                     self.fail("C02", "resolved-early", format!("{name} resolved with {got:?} although {detail}"));
                     self.ops[i].done = true;
+                }
+                Got::Sig(pid) if matches!(self.ops[i].kind, MKind::Signals { .. }) => {
+                    if first.is_none_or(|f| f < 0) || pid != self.ops[i].sig_pid {
+                        self.fail("C02", "wrong-value", format!("{name} yielded a signal from pid {pid}, the kernel's result was {first:?} with sender pid {}", self.ops[i].sig_pid));
+                    }
+                    // The iterator re-arms: the same state is reset and the
+                    // next poll submits the next read.
+                    let op = &mut self.ops[i];
+                    op.started = false;
+                    op.serial = None;
+                    op.delivered.clear();
+                    op.in_cq.clear();
+                    op.final_posted = false;
+                    op.final_consumed = false;
+                    op.yielded += 1;
+                    self.classes.push("signal-yielded");
+                    if self.ops[i].yielded >= 2 {
+                        self.classes.push("state-reused");
+                    }
                 }
                 Got::Count(n) => {
                     if first != Some(n as i32) {
@@ -728,8 +775,20 @@ impl<'c> Exec<'c> {
             return;
         }
         let (_, tail_after, _) = self.ring_words();
-        if tail_after != tail {
-            self.fail("C06", "cancel-after-finish", format!("dropping finished operation {i} published {} submissions", tail_after.wrapping_sub(tail)));
+        let mut published = tail_after.wrapping_sub(tail);
+        if matches!(self.ops[i].kind, MKind::Signals { .. }) {
+            // The signal handle's descriptor is closed with it.
+            let sig_fd = self.ops[i].sig_fd;
+            let mut s = sim::sim();
+            let ring = s.the_ring();
+            let closes = (0..published.min(8)).filter(|k| {
+                let q = ring.read_sqe_slot(tail.wrapping_add(*k));
+                q.opcode == abi::OP_CLOSE && q.fd == sig_fd
+            });
+            published -= closes.count() as u32;
+        }
+        if published != 0 {
+            self.fail("C06", "cancel-after-finish", format!("dropping finished operation {i} published {published} submissions"));
         }
         self.check_reclaimed(i, "after the operation finished and its future was dropped");
     }
@@ -790,10 +849,22 @@ impl<'c> Exec<'c> {
             self.cancel_script.lock().unwrap().insert(self.ops[i].user_data, cancel);
         }
         let fut = self.ops[i].fut.take();
+        let into_inner = matches!(self.ops[i].kind, MKind::Signals { into_inner: true });
         let r = {
             let _s = track::scope(track::TAG_A10);
-            catch(|| drop(fut))
+            catch(|| match fut {
+                Some(Fut::Signals(f)) if into_inner => {
+                    // SAFETY: the iterator is not used again.
+                    let it = *unsafe { Pin::into_inner_unchecked(f) };
+                    let signals = it.into_inner();
+                    drop(signals);
+                }
+                other => drop(other),
+            })
         };
+        if into_inner {
+            self.classes.push("into-inner");
+        }
         self.ops[i].done = true;
         if let Err((msg, loc)) = r {
             self.fail(self.prop, "panic", format!("dropping operation {i} panicked at {loc}: {msg}"));
@@ -808,6 +879,12 @@ impl<'c> Exec<'c> {
             for k in 0..published.min(8) {
                 new_sqes.push(ring.read_sqe_slot(tail.wrapping_add(k)));
             }
+        }
+        // The signal handle goes with its iterator: the close of its
+        // descriptor is not part of the cancellation protocol.
+        let sig_fd = self.ops[i].sig_fd;
+        if matches!(self.ops[i].kind, MKind::Signals { .. }) {
+            new_sqes.retain(|q| !(q.opcode == abi::OP_CLOSE && q.fd == sig_fd));
         }
         let ud = self.ops[i].user_data;
         let point = if !self.ops[i].started {
@@ -882,6 +959,29 @@ impl<'c> Exec<'c> {
                 let n = ((frac as usize) * (len as usize + 1)) >> 16;
                 let res = if ok { n as i32 } else { -errno };
                 s.the_ring().complete(serial, res, 0, false);
+            }
+            MKind::Signals { .. } => {
+                if ok {
+                    let pid = 300_000 + (frac as u32) * 8 + self.ops[i].posted_count as u32 % 8;
+                    let mut info: libc::signalfd_siginfo = unsafe { std::mem::zeroed() };
+                    info.ssi_signo = libc::SIGUSR2 as u32;
+                    info.ssi_pid = pid;
+                    let raw = unsafe { std::slice::from_raw_parts((&raw const info).cast::<u8>(), size_of::<libc::signalfd_siginfo>()) };
+                    let wrote = req.regions.iter().find(|r| r.what == "buffer").is_some_and(|r| r.len >= raw.len() && sim::regions::write_region(r, 0, raw));
+                    if !wrote {
+                        drop(s);
+                        self.fail("C01", "region-not-owned", format!("operation {i}: the signalfd read designates no valid {}-byte destination", raw.len()));
+                        return;
+                    }
+                    s.the_ring().complete(serial, raw.len() as i32, 0, false);
+                    drop(s);
+                    self.ops[i].sig_pid = pid;
+                } else {
+                    s.the_ring().complete(serial, -errno, 0, false);
+                }
+                if self.ops[i].fut.is_none() {
+                    self.classes.push("completed-after-drop");
+                }
             }
             MKind::Pollable => {
                 // Every readiness result is the same poll mask.
@@ -1102,6 +1202,8 @@ pub fn run(case: &MultiCase, ctx: &mut Ctx, prop: &'static str) -> Vec<&'static 
             posted_count: 0,
             first_sqe: None,
             restarts: 0,
+            sig_pid: 0,
+            sig_fd: -1,
         })
         .collect();
     let mut exec = Exec { world, fd, ops, ctx, prop, events_seen: sim::events_len(), consumed_seqs: BTreeSet::new(), classes: Vec::new(), stop: false, accepted: Vec::new(), cancel_script, ring_gone: false, other };
